@@ -463,6 +463,13 @@ func (g *goCompiler) compCall(x *CallE) (string, types.Type, bool) {
 	case "isNilVal":
 		s, _, ok := arg(0)
 		return fmt.Sprintf("func() bool { if %[1]s == nil { return true }; _, ok := %[1]s.(*cfgNil); return ok }()", s), boolT, ok
+	case "isTyped":
+		s, _, ok := arg(0)
+		if g.pkg.Name() == "ucfg" {
+			return fmt.Sprintf("func() bool { if %[1]s == nil { return true }; _, ok := interface{}(%[1]s).(Error); return ok }()", s), boolT, ok
+		}
+		g.imports[modPrefix] = true
+		return fmt.Sprintf("func() bool { if %[1]s == nil { return true }; _, ok := interface{}(%[1]s).(ucfg.Error); return ok }()", s), boolT, ok
 	case "toAny":
 		s, _, ok := arg(0)
 		return fmt.Sprintf("interface{}(%s)", s), types.NewInterfaceType(nil, nil), ok
